@@ -1556,6 +1556,21 @@ prop(dict(
 ))
 
 
+prop(dict(
+    id="G09", fam="G09",
+    gen=[("ObuGen.tla", "ObuGen.cfg", {"thorough": {"Lens": "{0, 1, 2, 3, 126, 127, 128, 129, 255, 256, 300, 16383, 16384, 16385}"}})],
+    trace=("ObuTrace.tla", "ObuTrace.cfg"),
+    shards={"quick": 2, "thorough": 8},
+    nontrivial=lambda c: True,
+    class_of=lambda c: c["class"],
+    exhaustive=True,
+    rule="GROWTH: obu.OBU.Marshal (reached by no listed property; found by selftest/coverage.sh): every obu_type x extension header (absent, layer ids and reserved bits at their extremes) x size field x "
+         "reserved bit x payload lengths around the LEB128 digit boundaries, alone and as streams of four OBUs; the bytes are read back by the specification alone (AV1!ReadStream) and must be "
+         "the specification's own encoding; the library's ParseOBUHeader must agree on the header",
+    assumptions=COMMON_ASSUME + ["not one of the listed properties: findings are reported in DESIGN.md 9.7, never as a listed property's violation"],
+))
+
+
 for _id in ("C02", "C03", "C08", "C09", "C10", "C14"):
     PROPS[_id]["rule"] += CORPUS_RULE
 
